@@ -16,7 +16,7 @@ import (
 	"verifharness/internal/hx"
 )
 
-// Timeout per guarded call.
+// Timeout per guarded call (first limit; a call that exceeds it gets 4x more before it is reported as TIMEOUT).
 var Timeout = 3 * time.Second
 
 // Guard runs f; returns 0 when it returned, 2 + site when it panicked (recovered), 3 on timeout.
@@ -41,6 +41,15 @@ func Guard(f func()) (int, string) {
 	case o := <-done:
 		return o.st, o.msg
 	case <-t.C:
+	}
+	// the limit expired: before reporting a hang give the SAME call (not restarted) a second, four times longer limit, so that a
+	// loaded machine or a GC pause is not reported as a defect; only a call still running after that is a TIMEOUT
+	t2 := time.NewTimer(4 * Timeout)
+	defer t2.Stop()
+	select {
+	case o := <-done:
+		return o.st, o.msg
+	case <-t2.C:
 		return 3, "timeout"
 	}
 }
